@@ -1362,7 +1362,14 @@ impl World for StakingWorld {
                     5 => o(format!("stakeProxy {} {} {}", un, un, amount_mix(rng))),
                     6 => o(format!("stake p2 {} {}", un, amount_mix(rng))),
                     7 => o(format!("claimBoosted {} {}", un, self.name((u + 1) % nu))),
-                    8 => o(format!("calcAsUser {} 0 0 {} {}", amount_mix(rng), amount_mix(rng), un)),
+                    8 => {
+                        // a real position of the caller when there is one (so that a committed view would really settle something)
+                        let kind = if rng.chance(1, 2) { "calcAsProxy" } else { "calcAsUser" };
+                        match anyp.as_ref().and_then(|p| s.toks.get(&p.0).map(|t| (p.1.clone(), t.meta.clone()))) {
+                            Some((a, Meta::Pos { rps, comp, amt: cur, .. })) => o(format!("{} {} {} {} {} {}", kind, a, rps, comp, cur, un)),
+                            _ => o(format!("{} {} 0 0 {} {}", kind, amount_mix(rng), amount_mix(rng), un)),
+                        }
+                    }
                     9 => o("setPct 10001".into()),
                     10 => o("setMinUnbond 31".into()),
                     11 => o("setApr 0".into()),
@@ -1912,7 +1919,7 @@ impl StakingWorld {
                     }
                     ok
                 }
-                "calcAsUser" => {
+                "calcAsUser" | "calcAsProxy" => {
                     let amt: BigUint = w[1].parse().ok()?;
                     let (rps, comp, cur): (BigUint, BigUint, BigUint) = (w[2].parse().ok()?, w[3].parse().ok()?, w[4].parse().ok()?);
                     let oa = match self.idx(w[5]) {
@@ -1929,11 +1936,13 @@ impl StakingWorld {
                         };
                         *v = to_big(&sc.calculate_rewards_for_given_position(mbig(&amt), attrs));
                     };
-                    let ca = self.addrs[0].clone();
+                    // the caller of the transaction: a plain account, or the whitelisted contract p1 (being on the SC whitelist
+                    // must not turn the state-settling view into something callable on chain)
+                    let ca = if w[0] == "calcAsProxy" { self.addrs[self.nusers].clone() } else { self.addrs[0].clone() };
                     let r = self.b.execute_tx(&ca, &self.farm, &zero, |sc| call(sc, &mut v));
                     let ok = r.result_status == 0;
                     if ok {
-                        tr.fail("C20", "reward_view_query_only", "calculateRewardsForGivenPosition", "the reward view ran in a normal transaction");
+                        tr.fail("C20", "reward_view_query_only", "calculateRewardsForGivenPosition", &format!("the reward view ran in a normal transaction ({})", w[0]));
                         outs = (0, BigUint::zero(), v.clone());
                         view_val = Some(v);
                     }
